@@ -95,12 +95,28 @@ where
     T: Number,
     usize: Cast<T>,
 {
-    let len = b - a;
-    let steps = (len / step).ceil();
+    let zero = T::zero();
+    // nothing lies strictly before `b` in the direction of `step`: the range is empty
+    // (decided first: `b - a` would underflow for unsigned types and a negative count
+    // must not be cast to usize)
+    let empty = if step > zero { b <= a } else { b >= a };
+    let len = if empty {
+        0
+    } else {
+        let span = b - a;
+        let mut steps = (span / step).ceil();
+        // integer division truncates and `ceil` is the identity for integers: one more
+        // element fits when `steps` strides still fall short of the span
+        let rest = span - steps * step;
+        if rest != zero && (rest > zero) == (step > zero) {
+            steps += T::one();
+        }
+        steps.cast()
+    };
     Linspace {
         start: a,
         step,
-        len: steps.cast(),
+        len,
         index: 0,
     }
 }
